@@ -283,7 +283,7 @@ def newWithdrawRate (amount rate total : Nat) (slashed : Nat × Bool) : Nat :=
   let sl := mulDec slashed.1 weight
   let actual :=
     if slashed.2 then unbonded + (if sl > 1 then sl - 1 else 0)
-    else (signedSub unbonded (if slashed.1 ≠ 0 then sl + 1 else sl)).1
+    else unbonded - (if slashed.1 ≠ 0 then sl + 1 else sl)     -- saturating (fix 94f82c5)
   if amount ≠ 0 then fromRatio actual amount else rate
 
 /-- ids of the batches a release would process: from `i`, consecutive, matured, unreleased -/
